@@ -594,6 +594,14 @@ def main():
     else:
         rng = random.Random(seed * 1000003 + int(prop[1:]))
         cases = load_corpus(prop) + spec["gen"](rng, tier)
+        if tier == "thorough":
+            # several more independently seeded rounds of the quick generator
+            for r in range(int(os.environ.get("VERIF_THOROUGH_ROUNDS", "4"))):
+                rr = random.Random(seed * 7907 + 15485863 * (r + 1) + int(prop[1:]))
+                extra = spec["gen"](rr, "quick")
+                for c in extra:
+                    c.id = "t%d-%s" % (r, c.id)
+                cases += extra
     # internal-state tie: on moderately sized cases also compare the complete serialized state
     # (bincode bytes of the real value) with the model's own state encoded by the generated schema
     if spec.get("state_tie", True) and not replay_mode:
